@@ -65,7 +65,9 @@ def _taints_in_part(g, p: Part, out):
     if p.kind == 'raw':
         _taints_in_value(g, p.a, out)
     elif p.kind == 'opaque':
-        if str(p.a) not in SAFE_OPAQUE:
+        if str(p.a).startswith('REFORMAT:'):
+            out.append((str(p.a)[9:], 'REFORMAT'))
+        elif str(p.a) not in SAFE_OPAQUE:
             out.append((f'unmodelled text ({p.a})', 'OPAQUE'))
     elif p.kind == 'tokrepr':
         out.append((f'repr of a token object ({p.a})', 'OPEN'))
@@ -121,6 +123,12 @@ def r1_emission(run: Run, src, g, em):
                     run.error('C07.R1', f'{construct}: {desc} reaches generated code; the analysis cannot classify it')
                     continue
                 tci = src.cls(tr)
+                if cls == 'REFORMAT':
+                    run.bad('C07.R1', construct, 'formatted-twice',
+                            f'{tr}: {desc}: a text literal of the workbook that was already quoted into the code is scanned for '
+                            f'format directives (a "%" or "{{" in it raises or rewrites the literal) (world: {e.world[:120]})',
+                            loc=loc_of(tci.module.path, tci.node))
+                    continue
                 run.bad('C07.R1', construct, f'raw:{desc[:90]}',
                         f'{tr} prints {desc} (language class {cls}) into the generated source without repr() or numeric conversion '
                         f'(world: {e.world[:120]})', loc=loc_of(tci.module.path, tci.node))
@@ -323,6 +331,12 @@ def run(run: Run):
     for e in sub.errors:
         run.errors.append(e)
     run.guard('C07.R3', r3, run, src)
+    # a constant text cell is data only as long as nothing but a leading "=" makes a cell a formula: shared with C18.R4
+    from .common import borrow
+    from . import c18
+    run.rule('C07.R4', 'a cell is code only if it is a str whose first character is "=" (shared with C18.R4)')
+    borrow(run, 'C07.R4', c18.r4, src)
+    run.floor('C07.R4', 2)
     run.floor('C07.R1', 70)
     run.floor('C07.R2', 2)
     run.floor('C07.R3', 1)
